@@ -184,26 +184,28 @@ def process_nodes_recursive(
                                 # 1. If it's a direct color, update usage.
                                 # 2. If it's a var(), update the definition.
 
+                                var_name = None
                                 if "var(" in raw_text_color:
-                                    # Extract var name
+                                    # Extract var name (with or without fallback)
                                     import re
 
                                     var_match = re.search(
-                                        r"var\((--[\w-]+)\)", raw_text_color
+                                        r"var\(\s*(--[\w-]+)\s*(?:,.*)?\)",
+                                        raw_text_color,
+                                        re.DOTALL,
                                     )
                                     if var_match:
                                         var_name = var_match.group(1)
-                                        if var_name in variables:
-                                            # Update the variable definition
-                                            var_def = variables[var_name]
-                                            update_decl_value(
-                                                var_def["decl"], tuned_rgb
-                                            )
-                                            # Update our local map so future usages see the new value
-                                            var_def["value"] = tuned_rgb
-                                    else:
-                                        pass  # Could not extract var name
+
+                                if var_name is not None and var_name in variables:
+                                    # Update the variable definition
+                                    var_def = variables[var_name]
+                                    update_decl_value(var_def["decl"], tuned_rgb)
+                                    # Update our local map so future usages see the new value
+                                    var_def["value"] = tuned_rgb
                                 else:
+                                    # Direct color, or a var() whose colour came from its
+                                    # fallback: rewrite the declaration itself
                                     update_decl_value(color_decl, tuned_rgb)
                                     modified = True
 
